@@ -365,3 +365,114 @@ func TestDriveCli(t *testing.T) {
 		rec.Emit(ev)
 	}
 }
+
+// TestDriveC16Proc: C16 at process level - the real daemon (configuration file -> loader -> start-up code -> controllers)
+// with runFanInitializationInParallel: false and fans that all need analysis (nothing stored): two hwmon fans, or one
+// hwmon fan and a command fan whose PWM map must be swept. The analysis intervals come from the child's hook events.
+func TestDriveC16Proc(t *testing.T) {
+	out := os.Getenv("VERIF_OUT")
+	if out == "" {
+		t.Skip("VERIF_OUT not set")
+	}
+	seed := int64(envInt("VERIF_SEED", 1))
+	n := envInt("VERIF_N", 1)
+	rec, err := NewRecorder(out)
+	must(err)
+	defer rec.Close()
+	for i := 0; i < n; i++ {
+		dir := scratchDir("verif.c16p.")
+		pc := &ProcCfg{Dir: dir, Parallel: false, Temp: 60000}
+		variant := int(seed+int64(i)) % 2
+		pc.Fans = append(pc.Fans, ProcFan{ID: "f1", Chip: "chipa", Channel: 1, HasMode: true, Pwm0: 90, Mode0: 2, Alg: "direct"})
+		if variant == 0 {
+			pc.Fans = append(pc.Fans, ProcFan{ID: "f2", Chip: "chipb", Channel: 2, HasMode: true, Pwm0: 120, Mode0: 2, Alg: "direct"})
+		} else {
+			pc.Fans = append(pc.Fans, ProcFan{ID: "f2", Cmd: true, Pwm0: 77, Alg: "direct"})
+		}
+		cfgPath := pc.Materialize()
+		rec.NextTrace()
+		var fansInfo []Ev
+		for _, f := range pc.Fans {
+			mode, kind := -1, "hwmon"
+			if f.HasMode {
+				mode = f.Mode0
+			}
+			if f.Cmd {
+				kind = "cmd"
+			}
+			fansInfo = append(fansInfo, Ev{"id": f.ID, "kind": kind, "hasMode": f.HasMode, "hasRpm": true, "cfgMap": false,
+				"cfgMinMax": false, "neverStop": false, "pwm": f.Pwm0, "mode": mode, "theta": -1, "quant": 1, "cfgStart": false, "rest": []string{"ok", "ok", "ok"},
+				"hadData": false, "hadMap": false})
+		}
+		rec.Emit(Ev{"ev": "Begin", "parallel": false, "fans": fansInfo, "newTrace": true, "proc": true, "scenario": Ev{"c16proc": true, "variant": variant}})
+		tracePath := filepath.Join(dir, "child.ndjson")
+		var outb bytes.Buffer
+		t0 := time.Now()
+		cmd := StartChild("daemon", []string{"-c", cfgPath, "--no-style", "--no-color"}, filepath.Join(dir, "hwmon"), tracePath, &outb)
+		ok := waitFor(tracePath, 150*time.Second, func(evs []Ev) bool { return countEv(evs, "LoopStarted") >= len(pc.Fans) })
+		_ = cmd.Process.Signal(syscall.SIGTERM)
+		code, signaled, timedOut := waitExit(cmd, 30*time.Second)
+		if !ok {
+			t.Fatalf("the fans were not analysed within 150 s (exit %d): %s", code, tailStr(outb.String(), 2000))
+		}
+		byID := map[string]ProcFan{}
+		for _, f := range pc.Fans {
+			byID[f.ID] = f
+		}
+		cancelled := false
+		for _, e := range readChildTrace(tracePath) {
+			id, _ := e["fan"].(string)
+			f, known := byID[id]
+			if !known {
+				continue
+			}
+			a, _ := e["a"].([]any)
+			switch e["ev"] {
+			case "Captured":
+				e["pwm"], e["mode"] = f.Pwm0, -1
+				if f.HasMode {
+					e["mode"] = f.Mode0
+				}
+			case "CycleEnd":
+				e["pwm"], e["mode"] = num(a[0]), -1
+				if f.HasMode {
+					e["mode"] = 1
+				}
+			case "RestoreBegin":
+				if !cancelled {
+					cancelled = true
+					rec.Emit(Ev{"ev": "Cancel", "why": "signal"})
+				}
+			case "RestoreEnd":
+				e["pwm"], e["mode"] = readRegs(pc, f)
+			}
+			delete(e, "cseq")
+			rec.Emit(e)
+		}
+		if !cancelled {
+			rec.Emit(Ev{"ev": "Cancel", "why": "signal"})
+		}
+		var regs []Ev
+		for _, f := range pc.Fans {
+			p, m := readRegs(pc, f)
+			regs = append(regs, Ev{"id": f.ID, "pwm": p, "mode": m, "hasData": true, "hasMap": true})
+		}
+		output := outb.String()
+		panicked := strings.Contains(output, "panic:") || strings.Contains(output, "goroutine 1 [")
+		rec.Emit(Ev{"ev": "Final", "regs": regs, "vt": int(time.Since(t0) / time.Millisecond), "crashed": code != 0 || panicked || signaled, "exit": code,
+			"panic": panicked, "timedOut": timedOut})
+		rec.Flush()
+		os.RemoveAll(dir)
+	}
+}
+
+func readRegs(pc *ProcCfg, f ProcFan) (int, int) {
+	mode := -1
+	if f.HasMode {
+		mode = readIntFile(pc.RegPath(f, "mode"))
+	}
+	if f.Cmd {
+		return readIntFile(filepath.Join(pc.Dir, "cmd_"+f.ID, "pwm")), mode
+	}
+	return readIntFile(pc.RegPath(f, "pwm")), mode
+}
